@@ -38,10 +38,15 @@ def handleCen : P String := do
     let nn := a.nodeNames
     let arcs := a.arcs sp.directed weighted
     let positive := arcs.all fun x => x.2.2 > 0
-    let sf :=
-      if nn.length > specLimit || !positive then [("bc0:q", "*"), ("bc1:q", "*"), ("cc0:q", "*"), ("cc1:q", "*")]
-      else [("bc0:q", pRatMap (bcSpec nn arcs sp.directed false)), ("bc1:q", pRatMap (bcSpec nn arcs sp.directed true)),
-            ("cc0:q", pRatMap (ccSpec nn arcs false)), ("cc1:q", pRatMap (ccSpec nn arcs true))]
+    -- the betweenness definition enumerates paths (exponential): small graphs only; the closeness definition is
+    -- polynomial (Bellman-Ford distances) and is evaluated on the graphs of the parallel code path as well
+    let sfB :=
+      if nn.length > specLimit || !positive then [("bc0:q", "*"), ("bc1:q", "*")]
+      else [("bc0:q", pRatMap (bcSpec nn arcs sp.directed false)), ("bc1:q", pRatMap (bcSpec nn arcs sp.directed true))]
+    let sfC :=
+      if nn.length > 64 || !positive then [("cc0:q", "*"), ("cc1:q", "*")]
+      else [("cc0:q", pRatMap (ccSpec nn arcs false)), ("cc1:q", pRatMap (ccSpec nn arcs true))]
+    let sf := sfB ++ sfC
     pure (pFields "m." m ++ "|" ++ pFields "s." sf)
 
 def floatOfBits (x : Int) : Float := Float.ofBits (UInt64.ofNat x.toNat)
